@@ -94,7 +94,13 @@ Record params := {
   quorum : Z; threshold : Z; exp_threshold : Z; veto_threshold : Z;
   min_initial_ratio : Z; min_deposit_ratio : Z;
   cancel_ratio : Z; cancel_dest : dest;
-  burn_prevote : bool; burn_quorum : bool; burn_veto : bool }.
+  burn_prevote : bool; burn_quorum : bool; burn_veto : bool;
+  (* not governance parameters but two facts about the code's shape that ride along with them (they
+     are set from gen/Gen_GovShape.v by the correspondence glue): in the end blocker's branches for an
+     undecodable proposal record, is the queue entry removed by the key the walk stands on?  As the
+     code is: neither (inactive: not removed at all; active: removed by the zero record's nil
+     VotingEndTime, a nil dereference) — finding C15-3. *)
+  bad_inactive_dequeued : bool; bad_active_dequeued_by_key : bool }.
 
 Record cparams := { c_ratio : Z; c_period : Z; c_quorum : Z }.
 
@@ -130,12 +136,22 @@ Fixpoint remove_key {A} (k : Z) (l : list (Z * A)) : list (Z * A) :=
   end.
 
 (* ------------------------------------------------------------------ state *)
-Inductive status := SDeposit | SVoting | SPassed | SRejected | SFailed | SDropped | SCancelled.
+Inductive status :=
+| SDeposit | SVoting | SPassed | SRejected | SFailed | SDropped | SCancelled
+(* the stored record no longer decodes (collections.ErrEncoding) while the proposal sits in the
+   inactive / active queue; deposits, votes and queue entries are separate records and unaffected *)
+| SBadDeposit | SBadVoting
+(* deleted from the store by the ErrEncoding branch of the inactive walk, queue entry left behind *)
+| SStale
+(* rewritten as a minimal FAILED record by failUnsupportedProposal (active walk, with the entry dequeued) *)
+| SFailedBad.
 
 Definition is_open (st : status) : bool :=
-  match st with SDeposit | SVoting => true | _ => false end.
+  match st with SDeposit | SVoting | SBadDeposit | SBadVoting => true | _ => false end.
 Definition is_removed (st : status) : bool :=
-  match st with SDropped | SCancelled => true | _ => false end.
+  match st with SDropped | SCancelled | SStale => true | _ => false end.
+Definition is_bad (st : status) : bool :=
+  match st with SBadDeposit | SBadVoting => true | _ => false end.
 
 Record tallyres := { t_yes : Z; t_abstain : Z; t_no : Z; t_veto : Z }.
 Definition tally0 : tallyres := {| t_yes := 0; t_abstain := 0; t_no := 0; t_veto := 0 |}.
@@ -258,7 +274,8 @@ Definition add_deposit (P : params) (kf : keyfun) (now : Z) (s : state) (pid dep
   match find_prop pid (props s) with
   | None => (RErr ENotFound, s)
   | Some p =>
-      if is_removed (p_status p) then (RErr ENotFound, s)
+      if is_bad (p_status p) then (RErr EInvalid, s) (* Proposals.Get: encoding error *)
+      else if is_removed (p_status p) then (RErr ENotFound, s)
       else if negb (is_open (p_status p)) then (RErr EInactive, s)
       else if bad_denom then (RErr EDenom, s)
       else if negb (min_deposit_ratio P =? 0)
@@ -359,7 +376,8 @@ Definition vote (s : state) (pid voter : Z) (opts : list (Z * Z)) (weighted : bo
       match find_prop pid (props s) with
       | Some p =>
           match p_status p with
-          | SVoting => (ROk, set_props s (upd_prop pid (fun q => with_votes q (set_vote voter opts (p_votes q))) (props s)))
+          | SVoting | SBadVoting => (* AddVote only consults VotingPeriodProposals *)
+              (ROk, set_props s (upd_prop pid (fun q => with_votes q (set_vote voter opts (p_votes q))) (props s)))
           | _ => (RErr EInactive, s)
           end
       | None => (RErr EInactive, s)
@@ -405,7 +423,8 @@ Definition cancel (P : params) (now : Z) (s : state) (pid proposer : Z) : result
   match find_prop pid (props s) with
   | None => (RErr ENotFound, s, [])
   | Some p =>
-      if is_removed (p_status p) then (RErr ENotFound, s, [])
+      if is_bad (p_status p) then (RErr EInvalid, s, []) (* Proposals.Get: encoding error *)
+      else if is_removed (p_status p) then (RErr ENotFound, s, [])
       else if negb (p_proposer p =? proposer) then (RErr EProposer, s, [])
       else if negb (is_open (p_status p)) then (RErr EBadStatus, s, [])
       else if (match p_status p with SVoting => p_vend p <? now | _ => false end) then (RErr EVotingEnded, s, [])
@@ -567,6 +586,17 @@ Definition process_inactive (P : params) (s : state) (id : Z) : option (state * 
           | None => None
           | Some (s1, ev) => Some (set_props s1 (upd_prop id (fun q => close_as q SDropped) (props s1)), ev)
           end
+      | SBadDeposit =>
+          (* failUnsupportedProposal: minimal FAILED record, deposits refunded (never burned);
+             DeleteProposal then reads that record — no DepositEndTime — and deletes it: the queue
+             entry is gone only if the branch removes it by the walk's key *)
+          match pay_out s p false with
+          | None => None
+          | Some (s1, ev) =>
+              Some (set_props s1 (upd_prop id (fun q => close_as q (if bad_inactive_dequeued P then SDropped else SStale))
+                                           (props s1)), ev)
+          end
+      | SStale => None (* the left-over entry: Proposals.Get = ErrNotFound, returned by the walk *)
       | _ => Some (s, [])
       end
   end.
@@ -593,6 +623,15 @@ Definition process_active (P : params) (kf : keyfun) (stk : staking) (s : state)
                   end
                 else Some (set_props s1 (upd_prop id (fun q => tallied q SRejected v) (props s1)), ev)
             end
+      | SBadVoting =>
+          (* failUnsupportedProposal, then the queue removal: by *proposal.VotingEndTime of the zero
+             record (nil dereference: the end blocker panics) unless it uses the walk's key *)
+          if bad_active_dequeued_by_key P then
+            match pay_out s p false with
+            | None => None
+            | Some (s1, ev) => Some (set_props s1 (upd_prop id (fun q => close_as q SFailedBad) (props s1)), ev)
+            end
+          else None
       | _ => Some (s, [])
       end
   end.
@@ -624,10 +663,10 @@ Definition sort_keys (l : list (Z * Z)) : list (Z * Z) := fold_right insert_key 
 
 Definition inactive_queue (ps : list proposal) : list (Z * Z) :=
   sort_keys (map (fun p => (p_dep_end p, p_id p))
-                 (filter (fun p => match p_status p with SDeposit => true | _ => false end) ps)).
+                 (filter (fun p => match p_status p with SDeposit | SBadDeposit | SStale => true | _ => false end) ps)).
 Definition active_queue (ps : list proposal) : list (Z * Z) :=
   sort_keys (map (fun p => (p_vend p, p_id p))
-                 (filter (fun p => match p_status p with SVoting => true | _ => false end) ps)).
+                 (filter (fun p => match p_status p with SVoting | SBadVoting => true | _ => false end) ps)).
 Definition due (t : Z) (q : list (Z * Z)) : list Z :=
   map snd (filter (fun k => fst k <=? t) q).
 
@@ -652,7 +691,28 @@ Inductive op :=
 | OEndBlock (t : Z) (stk : staking)
 | OSetCustom (authorized : bool) (key : Z) (cp : cparams)
 | ORemoveCustom (authorized : bool) (key : Z)
-| OBank (acct delta : Z).   (* any other credit/debit of an ordinary account (never the module account) *)
+| OBank (acct delta : Z)
+| OCorrupt (pid : Z).        (* the stored record of an open proposal is overwritten with undecodable bytes *)   (* any other credit/debit of an ordinary account (never the module account) *)
+
+Definition with_status (p : proposal) (st : status) : proposal :=
+  {| p_id := p_id p; p_status := st; p_msgs := p_msgs p; p_proposer := p_proposer p;
+     p_expedited := p_expedited p; p_total := p_total p; p_deps := p_deps p;
+     p_submit := p_submit p; p_dep_end := p_dep_end p; p_vstart := p_vstart p; p_vend := p_vend p;
+     p_votes := p_votes p; p_tally := p_tally p;
+     p_act_total := p_act_total p; p_act_req := p_act_req p; p_act_period := p_act_period p;
+     p_quorum_used := p_quorum_used p |}.
+
+(* only open, decodable proposals are corrupted (the harness does nothing else) *)
+Definition corrupt (s : state) (pid : Z) : result * state :=
+  match find_prop pid (props s) with
+  | Some p =>
+      match p_status p with
+      | SDeposit => (ROk, set_props s (upd_prop pid (fun q => with_status q SBadDeposit) (props s)))
+      | SVoting => (ROk, set_props s (upd_prop pid (fun q => with_status q SBadVoting) (props s)))
+      | _ => (RErr EInvalid, s)
+      end
+  | None => (RErr EInvalid, s)
+  end.
 
 Definition cparams_valid (cp : cparams) : bool :=
   (0 <? c_period cp) && (0 <=? c_quorum cp) && (c_quorum cp <=? prec)
@@ -686,6 +746,7 @@ Definition step (P : params) (kf : keyfun) (s : state) (o : op) : result * state
       else (ROk, {| props := props s; next_id := next_id s; gov_bal := gov_bal s;
                     bal := bal_add (bal s) a d; burned := burned s; pool_in := pool_in s;
                     ext := ext s; custom := custom s; gov_spent := gov_spent s |}, [])
+  | OCorrupt pid => let '(r, s') := corrupt s pid in (r, s', [])
   end.
 
 (* a history: the final state and the payout events of all steps, in order *)
